@@ -29,6 +29,9 @@ def demo_cmds(notes):
     for feats in sorted(set(re.findall(r"--features[ =]([a-z_,\-]+)", notes))):
         if feats not in ("unsize,arc-swap",):
             cmds.append(("features:" + feats, "cargo test --offline --features %s --test demo" % feats))
+    if "triomphe_verif" in notes:
+        # demonstrations that observe the orderings requested of the count through the crate's own tracer hook
+        cmds.append(("hook", 'RUSTFLAGS="--cfg triomphe_verif --check-cfg cfg(triomphe_verif)" cargo test --offline --test demo'))
     if "miri" in notes.lower():
         cmds.append(("miri", "cargo +nightly miri test --offline --test demo"))
     return cmds
